@@ -922,3 +922,101 @@ Theorem C08_rawnode_api_gx :
   (forall n ctx n', rn_read_index n ctx = Ok n' -> gxn n n').
 Proof. exact rawnode_api_gx. Qed.
 Print Assumptions C08_rawnode_api_gx.
+
+(* ====================================================================== *)
+(* Cluster level (abstract protocol P/Read.v).
+
+   The cluster-level clause listed above as not proved is proved here for the abstract
+   protocol P/Read.v: the read layer (record a request on a leader that has committed in
+   its own term; followers acknowledge a heartbeat echoing the context of a request
+   recorded BEFORE the acknowledgement is created, at the request's term; the leader
+   answers a request once a quorum, itself included, has acknowledged it or a later
+   request of the same leader and term) superposed on the log protocol P/Log.v and the
+   election protocol P/Election.v -- every execution: any interleaving with elections,
+   replication, commits, persistence, message duplication / delay / reordering, crashes
+   and restarts -- for a fixed voter configuration (simple or joint) in which no single
+   node is a quorum.  Proofs live in P/ReadProofs.v; that an observed implementation
+   trace is an execution of P/Read.v is decided by the acceptor P/ReadAccept.v
+   (raccept_trace_reachable).  Membership changes and lease-based reads are not covered.
+   (The names of P/*.v shadow those of the model from here on.) *)
+From RV Require Import M.Quorum P.Election P.ElectionProofs P.Log P.LogProofs P.LogSafety
+  P.Read P.ReadProofs.
+
+(* Every answer (c, t, ctx, idx) carries the index recorded by c for the request ctx of
+   term t, and that index is at least every commit point (T, k) that existed when the
+   request was recorded ([snap]: the ghost snapshot of the commit points taken by the
+   request rule); all of them are of terms <= t. *)
+Theorem C08_read_linearizable :
+  forall inc out, inc <> [] -> no_single_quorum inc out ->
+  forall s c t ctx idx, rreachable inc out s -> In (c, t, ctx, idx) (pr_served s) ->
+    exists snap, In (c, t, ctx, idx, snap) (pr_reqs s) /\
+      forall T k, In (T, k) snap -> T <= t /\ (k <= idx)%nat.
+Proof. exact read_linearizable. Qed.
+Print Assumptions C08_read_linearizable.
+
+(* the same for the enabled answer step *)
+Theorem C08_read_serve_linearizable :
+  forall inc out, inc <> [] -> no_single_quorum inc out ->
+  forall s c ctx s', rreachable inc out s -> rrule inc out (RReadServe c ctx) s = Some s' ->
+    exists idx snap,
+      pr_served s' = (c, p_term (nodes (el (pr_lg s)) c), ctx, idx) :: pr_served s /\
+      In (c, p_term (nodes (el (pr_lg s)) c), ctx, idx, snap) (pr_reqs s) /\
+      forall T k, In (T, k) snap -> T <= p_term (nodes (el (pr_lg s)) c) /\ (k <= idx)%nat.
+Proof. exact read_serve_linearizable. Qed.
+Print Assumptions C08_read_serve_linearizable.
+
+(* The property in its own words: if the request ctx is recorded on c in state s0 and
+   answered with idx in any later state s, then idx is c's commit index at s0 and is at
+   least the commit index of EVERY node at s0. *)
+Theorem C08_read_index_ge_commit :
+  forall inc out, inc <> [] -> no_single_quorum inc out ->
+  forall s0 c ctx s1 s idx, rreachable inc out s0 ->
+    rrule inc out (RReadReq c ctx) s0 = Some s1 -> rsteps inc out s1 s ->
+    In (c, p_term (nodes (el (pr_lg s0)) c), ctx, idx) (pr_served s) ->
+    idx = l_commit (ln (pr_lg s0) c) /\ forall n, (l_commit (ln (pr_lg s0) n) <= idx)%nat.
+Proof. exact read_index_ge_commit. Qed.
+Print Assumptions C08_read_index_ge_commit.
+
+(* A superseded leader never answers: a request recorded when a commit point of a later
+   term already existed is never answered. *)
+Theorem C08_stale_leader_silent :
+  forall inc out, inc <> [] -> no_single_quorum inc out ->
+  forall s r T k, rreachable inc out s -> In r (pr_reqs s) ->
+    In (T, k) (rq_snap r) -> rq_t r < T ->
+    forall idx, ~ In (rq_c r, rq_t r, rq_ctx r, idx) (pr_served s).
+Proof. exact stale_leader_silent. Qed.
+Print Assumptions C08_stale_leader_silent.
+
+(* An answer is produced only on the node that recorded the request, while it is up and in
+   the leader role (of the term of the request: the answer carries that term). *)
+Theorem C08_served_only_at_request_node :
+  forall inc out s l s', rrule inc out l s = Some s' ->
+    pr_served s' = pr_served s \/
+    exists c ctx idx, l = RReadServe c ctx /\
+      pr_served s' = (c, p_term (nodes (el (pr_lg s)) c), ctx, idx) :: pr_served s /\
+      p_up (nodes (el (pr_lg s)) c) = true /\ p_role (nodes (el (pr_lg s)) c) = PL.
+Proof. exact serve_rule. Qed.
+Print Assumptions C08_served_only_at_request_node.
+
+(* a run: leader 1 commits index 2 in term 1, a read with context 5 is requested,
+   nodes 2 and 3 acknowledge, the read is answered with index 2 *)
+Example C08_read_scenario :
+  exists s, rrun [1;2;3] [] read_sc rinit = Some s /\
+    pr_served s = [(1, 1, 5, 2%nat)] /\ pr_reqs s = [(1, 1, 5, 2%nat, [(1, 2%nat)])].
+Proof. exact read_sc_runs. Qed.
+
+(* Without the guard "the acknowledged request is already recorded" (acknowledgements of an
+   EARLIER heartbeat round counted for a later request with the same context: non-unique
+   contexts) the property is false: an explicit execution in which the partitioned leader 1
+   of term 1 answers index 2 for a read issued after node 3 committed index 3 in term 2;
+   the guarded rule rejects that execution. *)
+Theorem C08_early_ack_unsafe :
+  exists s, rrun_early_ack [1;2;3] [] early_ack_attack rinit = Some s /\
+    pr_served s = [(1, 1, 5, 2%nat)] /\ l_commit (ln (pr_lg s) 3) = 3%nat /\
+    pr_reqs s = [(1, 1, 5, 2%nat, [(2, 3%nat); (1, 2%nat)])].
+Proof. exact early_ack_unsafe. Qed.
+Print Assumptions C08_early_ack_unsafe.
+
+Theorem C08_guarded_ack_rejects_attack : rrun [1;2;3] [] early_ack_attack rinit = None.
+Proof. exact guarded_ack_rejects_attack. Qed.
+Print Assumptions C08_guarded_ack_rejects_attack.
